@@ -615,7 +615,15 @@ func (e *Engine) evalSpecCall(x *SExpr, env *SpecEnv) Value {
 			r = r.(VTuple)[atoi(args[2].Val)]
 		}
 		return r
-	case "extrem", "csvfpr", "ftrunc", "fappend":
+	case "jsonelem":
+		// jsonelem(c, r, k): the k-th value of the JSON array read from r, decoded into a zero value of c's element type
+		c, ok := e.evalSpec(args[0], env).(VStream)
+		if !ok {
+			unsup("spec: jsonelem of a non-stream")
+		}
+		es := e.elemSort(c.Elem)
+		return VTerm{T: mkApp("jsonelem_"+sortTag(es), es, term(e.evalSpec(args[1], env)), term(e.evalSpec(args[2], env))), Typ: c.Elem}
+	case "extrem", "csvfpr", "ftrunc", "fappend", "jsoncnt":
 		// ghost counters / flags of standard-library objects (remaining input, csv field count, open flags)
 		v := e.evalSpec(args[0], env)
 		vt, ok := v.(VTerm)
